@@ -204,11 +204,11 @@ func (sp *SAMLServiceProvider) MetadataWithSLO(validityHours int64) (*types.Enti
 
 	if validityHours <= 0 {
 		// By default let's keep it to 7 days.
-		validityHours = int64(time.Hour * 24 * 7)
+		validityHours = 24 * 7
 	}
 
 	return &types.EntityDescriptor{
-		ValidUntil: sp.Clock.Now().UTC().Add(time.Duration(validityHours)), // default 7 days
+		ValidUntil: sp.Clock.Now().UTC().Add(time.Duration(validityHours) * time.Hour), // default 7 days
 		EntityID:   sp.ServiceProviderIssuer,
 		SPSSODescriptor: &types.SPSSODescriptor{
 			AuthnRequestsSigned:        sp.SignAuthnRequests,
